@@ -204,6 +204,9 @@ class Coargument(BaseForm, BaseArgument):
 
     _primal = False
     _dual = True
+    # Not an Expr, so this doesn't come from the ufl_type() decorator: a
+    # Coargument is a leaf for generic traversal (like Matrix and Cofunction).
+    _ufl_is_terminal_ = True
 
     def __new__(cls, *args, **kw):
         """Create a new Coargument."""
